@@ -31,7 +31,7 @@ pub fn synthetic_fvar() -> Vec<u8> {
     v
 }
 
-pub fn feature_variations(feature_index: u16, lookups: &[u16], min: i16, max: i16) -> Vec<u8> {
+pub fn feature_variations(feature_index: u16, lookups: &[u16], min: i16, max: i16, axis: u16) -> Vec<u8> {
     let mut v = Vec::new();
     v.extend_from_slice(&[0, 1, 0, 0]); // version 1.0
     v.extend_from_slice(&1u32.to_be_bytes()); // featureVariationRecordCount
@@ -42,7 +42,7 @@ pub fn feature_variations(feature_index: u16, lookups: &[u16], min: i16, max: i1
     v.extend_from_slice(&6u32.to_be_bytes());
     // Condition format 1 @22
     v.extend_from_slice(&1u16.to_be_bytes());
-    v.extend_from_slice(&0u16.to_be_bytes()); // axisIndex
+    v.extend_from_slice(&axis.to_be_bytes()); // axisIndex
     v.extend_from_slice(&min.to_be_bytes());
     v.extend_from_slice(&max.to_be_bytes());
     // FeatureTableSubstitution @30
@@ -1869,10 +1869,11 @@ pub fn apply(disk: &mut Disk, s: &Surgery) -> Result<(), String> {
             lookups,
             min,
             max,
+            axis,
         } => append_feature_variations(
             disk,
             table,
-            feature_variations(*feature_index, lookups, *min, *max),
+            feature_variations(*feature_index, lookups, *min, *max, *axis),
         ),
         Surgery::FeatureVariationsMulti { table, records } => {
             append_feature_variations(disk, table, feature_variations_multi(records))
